@@ -151,12 +151,17 @@ class InterestTreeNode:
         self.pending_list.append(
             PendingIntEntry(future, deadline, param.can_be_prefix, param.must_be_fresh, validator, implicit_sha256))
 
-    def nack_interest(self, nack_reason: int) -> bool:
+    def nack_interest(self, nack_reason: int, implicit_sha256: enc.BinaryStr = b'') -> bool:
+        # Only the Interests with the nacked name are affected: same implicit digest component (or none)
+        remaining_entries = []
         for entry in self.pending_list:
+            if bytes(entry.implicit_sha256) != bytes(implicit_sha256):
+                remaining_entries.append(entry)
             # The future may already be cancelled by its timer or by the caller in the same loop turn
-            if not entry.future.done():
+            elif not entry.future.done():
                 entry.future.set_exception(types.InterestNack(nack_reason))
-        return True
+        self.pending_list = remaining_entries
+        return not remaining_entries
 
     def satisfy(self, data: types.DataTuple, is_prefix: bool) -> bool:
         unsatisfied_entries = []
@@ -605,13 +610,20 @@ class NDNApp:
             del self._pit[prefix]
 
     def _on_nack(self, name: enc.FormalName, nack_reason: int):
+        # Same split as in express_raw_interest: the implicit digest is not part of the PIT key
+        if len(name) > 0 and enc.Component.get_type(name[-1]) == enc.Component.TYPE_IMPLICIT_SHA256:
+            node_name = name[:-1]
+            implicit_sha256 = enc.Component.get_value(name[-1])
+        else:
+            node_name = name
+            implicit_sha256 = b''
         try:
-            node = self._pit[name]
+            node = self._pit[node_name]
         except KeyError:
             node = None
         if node:
-            if node.nack_interest(nack_reason):
-                del self._pit[name]
+            if node.nack_interest(nack_reason, implicit_sha256):
+                del self._pit[node_name]
 
     def express(self, name: enc.NonStrictName, validator: Validator,
                 app_param: enc.BinaryStr | None = None,
